@@ -14,7 +14,7 @@ def b01 (b : Bool) : String := if b then "1" else "0"
 
 def dump (s : St) : String :=
   let accts := addrs.map fun a =>
-    let p := s.acct a
+    let p := if (s.acct a).deleted then Acct.absent else s.acct a   -- reads do not see an object marked deleted
     s!"{a}:{b01 p.present},{p.bal},{p.nonce},{p.code},{p.size},{b01 p.suicided}," ++
       String.intercalate "," (slots.map fun k => toString (p.stor k))
   let acc := addrs.map fun a => b01 (s.accA a) ++ String.join (slots.map fun k => b01 (s.accS a k))
@@ -66,6 +66,9 @@ def step (d : DState) (ws : List String) : DState × String :=
   | ["revert"] => match d.stack with
     | n :: t => ({ d with stack := t, st := revertTo n d.st }, "ok")
     | [] => (d, "bad-op")
+  | ["endtx"] => match d.stack with
+    | [] => ({ d with st := finalise d.st }, "ok")
+    | _ => (d, "bad-op")
   | ["dump"] => (d, dump d.st)
   | _ => (d, "bad-op")
 
